@@ -16,6 +16,7 @@ the real library, assembled by the real assembler, on the executable machine def
   * random sequences of dereferencing macros on shared buffers (state left in to_flip/to_jump by one macro is what
     the next one starts from).
 """
+
 from __future__ import annotations
 
 from typing import List
@@ -28,8 +29,15 @@ PROP = 'C08'
 
 
 def programs(tier: str, seed: int) -> List[stl_ptr.Program]:
-    return (P.hex_deref_programs() + P.bit_deref_programs() + P.jump_programs() + P.arith_programs() + P.stack_programs()
-            + P.sequence_programs(tier, seed) + P.mixed_programs(tier, seed))
+    return (
+        P.hex_deref_programs()
+        + P.bit_deref_programs()
+        + P.jump_programs()
+        + P.arith_programs()
+        + P.stack_programs()
+        + P.sequence_programs(tier, seed)
+        + P.mixed_programs(tier, seed)
+    )
 
 
 def body(tier: str, seed: int) -> int:
@@ -38,11 +46,17 @@ def body(tier: str, seed: int) -> int:
     ps = programs(t, seed)
     stl_ptr.run_programs(rep, ps, t, seed, PROP, widths=lambda p: p.widths)
     rep.extra['not_under_contract'] = P.NOT_COVERED
-    rep.assume('[B] bounded: buffers of 8 (near) + 4 (far segment) cells, a 12-cell stack for the single applications, vector lengths n <= 6, '
-               'random programs of the listed sizes; widths 64 and 32 (bit namespace also 16, there with stl.startup + bit.pointers.ptr_init)')
-    rep.assume('cells pointed to by the reading macros hold a hex / byte / bit value with first word 0 (what hex.vec / bit.vec declare); '
-               'the flip / wflip macros are run on cells holding arbitrary words')
-    rep.trust('spec/machine.py as the engine (C01 relates the real engines to it); the real assembler and reader produce the image (C02, C06, C15)')
+    rep.assume(
+        '[B] bounded: buffers of 8 (near) + 4 (far segment) cells, a 12-cell stack for the single applications, vector lengths n <= 6, '
+        'random programs of the listed sizes; widths 64 and 32 (bit namespace also 16, there with stl.startup + bit.pointers.ptr_init)'
+    )
+    rep.assume(
+        'cells pointed to by the reading macros hold a hex / byte / bit value with first word 0 (what hex.vec / bit.vec declare); '
+        'the flip / wflip macros are run on cells holding arbitrary words'
+    )
+    rep.trust(
+        'spec/machine.py as the engine (C01 relates the real engines to it); the real assembler and reader produce the image (C02, C06, C15)'
+    )
     return rep.finish()
 
 
